@@ -105,9 +105,10 @@ class DateTime(SimpleModel):
     __type_name__ = 'dateTime'
     Value = datetime.datetime
 
-    _local_re = re.compile(DATETIME_PATTERN)
-    _utc_re = re.compile(DATETIME_PATTERN + 'Z')
-    _offset_re = re.compile(DATETIME_PATTERN + OFFSET_PATTERN)
+    # the whole text must be the literal: "...T12:30:00xyz" is not a date-time
+    _local_re = re.compile(DATETIME_PATTERN + '$')
+    _utc_re = re.compile(DATETIME_PATTERN + 'Z$')
+    _offset_re = re.compile(DATETIME_PATTERN + OFFSET_PATTERN + '$')
 
     class Attributes(SimpleModel.Attributes):
         """Customizable attributes of the :class:`spyne.model.primitive.DateTime`
@@ -216,7 +217,7 @@ class Date(DateTime):
 
     __type_name__ = 'date'
 
-    _offset_re = re.compile(DATE_PATTERN + '(' + OFFSET_PATTERN + '|Z)')
+    _offset_re = re.compile(DATE_PATTERN + '(' + OFFSET_PATTERN + '|Z)$')
     Value = datetime.date
 
     class Attributes(DateTime.Attributes):
